@@ -126,7 +126,11 @@ def do_run(args):
         meta = json.load(open(os.path.join(d, "meta.json")))
         if not meta.get("kept"):
             continue
-        ids = args.ids.split(",") if args.ids else [meta["property"]]
+        # (a change may concern something its own property's check has no
+        # handle on - e.g. a farmer's resources for the plain-crop property -
+        # and is then run against the checks named in ``checked_by``)
+        ids = args.ids.split(",") if args.ids else \
+            meta.get("checked_by") or [meta["property"]]
         scratch = tempfile.mkdtemp(prefix="xv-seedrun-", dir="/tmp")
         try:
             shutil.copytree(os.path.join(REPO, "xyzpy"),
